@@ -17,6 +17,8 @@ import traceback
 import z3
 
 ROOT = os.path.dirname(os.path.dirname(os.path.abspath(__file__)))
+# seeded-change runs redirect evidence / replay files so that the committed evidence is not overwritten
+OUT = os.environ.get("PYVC_OUT", ROOT)
 
 TRUSTED_BASE = [
     "pyvc itself (the VC generator in /verif/pyvc): unverified; mitigated by seeded-fault runs, the canary obligation and a second solver",
@@ -292,7 +294,7 @@ def main(argv=None):
     undecided = [o for o in all_obs if o["status"] not in ("unsat", "sat")]
     violations = []
     known_hit = []
-    os.makedirs(os.path.join(ROOT, "replay", prop), exist_ok=True)
+    os.makedirs(os.path.join(OUT, "replay", prop), exist_ok=True)
     for o in refuted:
         kf = known_for(o)
         if kf is not None:
@@ -303,7 +305,7 @@ def main(argv=None):
     lines = []
     from . import replay as replay_mod
     for o in violations:
-        path = os.path.join(ROOT, "replay", prop, hashlib.sha1((o["name"] + str(o.get("path"))).encode()).hexdigest()[:12] + ".json")
+        path = os.path.join(OUT, "replay", prop, hashlib.sha1((o["name"] + str(o.get("path"))).encode()).hexdigest()[:12] + ".json")
         confirmed = replay_mod.write_replay(path, prop, o, repo)
         lines.append("VIOLATION property=%s replay=%s%s" % (prop, path, "" if confirmed else " no-failing-input-found"))
         exit_code = 1
@@ -381,8 +383,8 @@ def main(argv=None):
         },
         "assumptions": props_mod.ASSUMPTIONS.get(prop, []) + ["see coverage.trusted_base"],
     }
-    os.makedirs(os.path.join(ROOT, "evidence"), exist_ok=True)
-    with open(os.path.join(ROOT, "evidence", prop + ".json"), "w") as f:
+    os.makedirs(os.path.join(OUT, "evidence"), exist_ok=True)
+    with open(os.path.join(OUT, "evidence", prop + ".json"), "w") as f:
         json.dump(ev, f, indent=1, default=str)
     print("%s tier=%s functions=%d obligations=%d discharged=%d refuted=%d undecided=%d known=%d wall=%.1fs exit=%d"
           % (prop, tier, len(results), n, len(discharged) + foreign_count, len(refuted) - foreign_count, len(undecided) + len(errors), len(own_known), wall, exit_code))
